@@ -78,6 +78,8 @@ func checkC03(p *Program, r *Report) {
 	}
 	c03NoTruncation(p, r, g)
 	c03StringLoops(p, r)
+	r.Explain("R9 the quote character selects the kind of literal: \" and ' are scanned by the function that interprets backslash escapes, ` by one that does not.")
+	c03QuoteKinds(p, r)
 	// the expression nonterminal: X in the rule  _ -> X '+' X
 	plus := g.TokByName("'+'")
 	E := 0
@@ -1269,7 +1271,7 @@ func c03NoTruncation(p *Program, r *Report, g *LALR) {
 		})
 		var visit func(list []ast.Stmt, conds []ast.Expr)
 		checkLit := func(cl *ast.CompositeLit, conds []ast.Expr) {
-			elem := map[sym]int{}  // list symbol -> highest constant index used
+			elem := map[sym]int{}   // list symbol -> highest constant index used
 			whole := map[sym]bool{} // list symbol used as a whole
 			var walk func(e ast.Node, underIndex bool)
 			walk = func(e ast.Node, underIndex bool) {
@@ -1540,4 +1542,71 @@ func isRuneVar(info *types.Info, id *ast.Ident) bool {
 	}
 	bt, ok := v.Type().Underlying().(*types.Basic)
 	return ok && bt.Kind() == types.Int32
+}
+
+// c03QuoteKinds (R9): which scanning function a quote character selects. The language has two kinds of string literal: quoted
+// ("..." and '...'), in which a backslash starts an escape, and raw (`...`), in which it does not. Table, from the language
+// definition: '"' and '\'' -> the function that interprets backslashes (it compares the look-ahead with '\\'), '`' -> a
+// function that does not. The functions are found by their shape (told the closing quote as a rune, return (string, error)).
+func c03QuoteKinds(p *Program, r *Report) {
+	sp := p.SSAPkg("parser")
+	if sp == nil {
+		return
+	}
+	want := map[int64]bool{'"': true, '\'': true, '`': false}
+	interprets := func(fn *ssa.Function) bool {
+		for _, b := range fn.Blocks {
+			for _, in := range b.Instrs {
+				if bo, ok := in.(*ssa.BinOp); ok && (bo.Op == token.EQL || bo.Op == token.NEQ) {
+					if k, ok := bo.Y.(*ssa.Const); ok && k.Value != nil && k.Value.Kind().String() == "Int" && k.Int64() == '\\' {
+						return true
+					}
+				}
+			}
+		}
+		return false
+	}
+	n := 0
+	for _, fn := range SrcFuncs(sp) {
+		for _, b := range fn.Blocks {
+			for _, in := range b.Instrs {
+				c, ok := in.(*ssa.Call)
+				if !ok {
+					continue
+				}
+				callee := staticCallee(c)
+				if callee == nil || callee.Pkg != sp || len(callee.Blocks) == 0 {
+					continue
+				}
+				res := callee.Signature.Results()
+				if res.Len() != 2 || !isErrorType(res.At(1).Type()) {
+					continue
+				}
+				if bt, ok := res.At(0).Type().(*types.Basic); !ok || bt.Kind() != types.String {
+					continue
+				}
+				var q *ssa.Const
+				for i, a := range c.Call.Args {
+					if k, ok := a.(*ssa.Const); ok && i < len(callee.Params) {
+						if bt, ok := callee.Params[i].Type().(*types.Basic); ok && bt.Kind() == types.Int32 && k.Value != nil {
+							q = k
+						}
+					}
+				}
+				if q == nil {
+					continue
+				}
+				esc, known := want[q.Int64()]
+				if !known {
+					continue
+				}
+				n++
+				got := interprets(callee)
+				kind := map[bool]string{true: "quoted (backslash escapes)", false: "raw (no escapes)"}
+				r.Check(got == esc, "C03.R9", fmt.Sprintf("%s|literal opened by %q", fn.Name(), rune(q.Int64())), p.Pos(c.Pos()),
+					"scanned as "+kind[esc], fmt.Sprintf("a literal opened by %q is scanned by %s, which treats it as %s; the language makes it %s: the literal no longer denotes what is written", rune(q.Int64()), callee.Name(), kind[got], kind[esc]))
+			}
+		}
+	}
+	r.Floor("C03.R9", n, 3)
 }
